@@ -227,7 +227,9 @@ MANIFEST = {
              "defects found (spec/history: extend_dim_width returning width+1; extend_dim returning the point at an open end) "
              "and their absence in the repaired algorithms. Every enumerated call (6-10 steps incl. 0.1, 0.01, 1/3, 1/44100; "
              "lengths <= 6-7; all interval ends on half/quarter steps; widths 1..2n+3; step from attribute or estimated) plus "
-             "seeded random calls on longer axes is executed on the real code and TLC validates the recorded coordinates "
+             "histories of two operations on the same data (extend;extend further out, extend;crop, crop;extend, extend;adjust_dim_width: "
+             "CropExtend!Final composes Req on the original lattice, the machine starts the second operation from the first one's "
+             "output), and seeded random calls and histories on longer axes, is executed on the real code and TLC validates the recorded coordinates "
              "(IEEE bit patterns, compared in TLA+) and data clause by clause. Thorough tier adds division-free laws for all "
              "integers proved by tlapm."),
     "note": ("trusted: TLC, the binder checks/c17.py (builds axes with numpy, encodes doubles; no expected values). Exact verdicts for "
